@@ -5,6 +5,11 @@ HERE = os.path.dirname(os.path.dirname(os.path.abspath(__file__)))
 ALL = ["C%02d" % i for i in range(1, 21)]
 # id -> (category, engine, technique, level text, level note, design ref)
 CHECKS = {
+ "C14": ("model_checking", "E1-choice",
+   "complete enumeration of formula ASTs up to depth 2 (thorough: + depth 3 layer) serialised to BIFF8/BIFF12 token streams and rendered by the real parsers, vs the AST's own A1 renderer; sub-lattice end to end at cell positions",
+   "About 160 k (thorough 4 M) ASTs per binary format over cell refs (4 absolute/relative combinations x columns A..IV/XFD x first/last row), areas, 3-D refs and areas through a non-identity XTI table, defined names, int/float/8- and 16-bit string/bool/error literals, unary, 15 binary, parentheses, fixed- and variable-arity functions and PtgAttrSum are serialised in both operand classes and rendered by the real xls and xlsb token parsers; every 41st (thorough 7th) is also written into FORMULA / BrtFmla* records in windows at A1 and at the last cell and read through worksheet_formula (placement and emptiness of other cells checked); xlsx and ods stored-text formulas with XML-special characters at every subset of 4 positions, explicit and implicit cell references.",
+   "Trusted: model/formula.rs (AST renderer and Ptg serialiser written from MS-XLS 2.5.198 / MS-XLSB 2.5.97; relative flags: bit 14 column, bit 15 row). Strings without double quotes, sheet names that need no quoting.",
+   "DESIGN.md §2 C14"),
  "C17": ("model_checking", "E1-choice",
    "stateless choice-tree exploration of merged-region sets and table geometries through every API path of the real xlsx / xls readers",
    "Workbooks with 1-2 sheets, 0-3 merged regions per sheet drawn in every order from five regions (A1 to the last rows/columns of the format; xls also split over two MERGECELLS records), and for xlsx 0-2 tables at 5 placements relative to the used range x header 0/1 x totals 0/1 x explicit default counts x either sheet x prefix, all choice vectors with <=4 (thorough 5) deviations; worksheet_merge_cells(_at), load_merged_regions + merged_regions(_by_sheet), load_tables, table_names(_in_sheet), table_by_name(_ref) are compared with the declared geometry and the model values.",
